@@ -10,6 +10,13 @@ pub struct Gen {
     pub r: ChaCha20Rng,
 }
 
+/// thorough tier: the same generators with wider size ranges (set once from the command line; a
+/// replay file carries the scenario itself, so replays do not depend on it)
+pub static DEEP: std::sync::atomic::AtomicBool = std::sync::atomic::AtomicBool::new(false);
+fn deep() -> bool {
+    DEEP.load(std::sync::atomic::Ordering::Relaxed)
+}
+
 pub const THREAD_KNOBS: [usize; 5] = [1, 2, 3, 8, 16];
 
 /// which scheme a run uses: weights keep the expensive families from dominating wall-clock
@@ -87,10 +94,10 @@ impl Gen {
 
     fn workload_inner(&mut self, scheme: &str, max_polys: usize) -> (KeyCfg, Vec<PolySpec>) {
         let fam = family_of(scheme);
-        let n_polys = self.small(1, max_polys);
+        let n_polys = self.small(1, max_polys + if deep() { 2 } else { 0 });
         match fam {
             Family::Marlin | Family::Sonic => {
-                let max_degree = if self.r.gen_bool(0.85) { self.small(1, 24) } else { self.r.gen_range(25..=64) };
+                let max_degree = if deep() { if self.r.gen_bool(0.8) { self.small(1, 48) } else { self.r.gen_range(49..=128) } } else if self.r.gen_bool(0.85) { self.small(1, 24) } else { self.r.gen_range(25..=64) };
                 let supported = if self.r.gen_bool(0.3) { max_degree } else { self.r.gen_range(1..=max_degree) };
                 let supported_hiding = self.r.gen_range(1..=max_degree.min(5));
                 // enforced bounds: None | empty | 1..4 bounds in [1, supported], unsorted, maybe duplicated
@@ -126,7 +133,7 @@ impl Gen {
                 (cfg, polys)
             }
             Family::Kzg10 => {
-                let max_degree = if self.r.gen_bool(0.85) { self.small(1, 24) } else { self.r.gen_range(25..=64) };
+                let max_degree = if deep() { if self.r.gen_bool(0.8) { self.small(1, 48) } else { self.r.gen_range(49..=128) } } else if self.r.gen_bool(0.85) { self.small(1, 24) } else { self.r.gen_range(25..=64) };
                 let supported = if self.r.gen_bool(0.3) { max_degree } else { self.r.gen_range(1..=max_degree) };
                 let supported_hiding = self.r.gen_range(1..=max_degree.min(5));
                 let cfg = KeyCfg { max_degree, num_vars: None, supported_degree: supported, supported_hiding, bounds: None, lincode: None };
@@ -158,7 +165,7 @@ impl Gen {
                 (cfg, polys)
             }
             Family::Ipa => {
-                let max_degree = if self.r.gen_bool(0.85) { self.small(1, 20) } else { self.r.gen_range(21..=63) };
+                let max_degree = if deep() { if self.r.gen_bool(0.8) { self.small(1, 40) } else { self.r.gen_range(41..=127) } } else if self.r.gen_bool(0.85) { self.small(1, 20) } else { self.r.gen_range(21..=63) };
                 let supported = if self.r.gen_bool(0.3) { max_degree } else { self.r.gen_range(1..=max_degree) };
                 let cfg = KeyCfg { max_degree, num_vars: None, supported_degree: supported, supported_hiding: 1, bounds: None, lincode: None };
                 let mut polys = vec![];
@@ -172,7 +179,7 @@ impl Gen {
             }
             Family::Pst13 => {
                 let nv = self.small(1, 4);
-                let dmax = match nv { 1 | 2 => 5, 3 => 4, _ => 3 };
+                let dmax = match nv { 1 | 2 => 5, 3 => 4, _ => 3 } + if deep() { 1 } else { 0 };
                 let max_degree = if self.r.gen_bool(0.5) { self.r.gen_range(1..=dmax) } else { self.small(1, dmax) };
                 let supported = if self.r.gen_bool(0.4) { max_degree } else { self.r.gen_range(1..=max_degree) };
                 let cfg = KeyCfg { max_degree, num_vars: Some(nv), supported_degree: supported, supported_hiding: supported, bounds: None, lincode: None };
@@ -192,9 +199,9 @@ impl Gen {
             }
             Family::Hyrax | Family::MLigero | Family::Brakedown => {
                 let nv = match fam {
-                    Family::Hyrax => 2 * self.small(0, 4),
-                    Family::MLigero => self.small(1, 9),
-                    _ => self.small(1, 8),
+                    Family::Hyrax => 2 * self.small(0, if deep() { 5 } else { 4 }),
+                    Family::MLigero => self.small(1, if deep() { 11 } else { 9 }),
+                    _ => self.small(1, if deep() { 10 } else { 8 }),
                 };
                 let cfg = KeyCfg { max_degree: nv.max(1), num_vars: Some(nv), supported_degree: nv.max(1), supported_hiding: 1, bounds: None, lincode: None };
                 let n = 1usize << nv;
@@ -212,7 +219,7 @@ impl Gen {
                 (cfg, polys)
             }
             Family::ULigero => {
-                let max_degree = if self.r.gen_bool(0.85) { self.small(1, 40) } else { self.r.gen_range(41..=200) };
+                let max_degree = if deep() { if self.r.gen_bool(0.8) { self.small(1, 100) } else { self.r.gen_range(101..=500) } } else if self.r.gen_bool(0.85) { self.small(1, 40) } else { self.r.gen_range(41..=200) };
                 let cfg = KeyCfg { max_degree, num_vars: None, supported_degree: max_degree, supported_hiding: 1, bounds: None, lincode: None };
                 let mut polys = vec![];
                 for i in 0..n_polys {
